@@ -7,7 +7,9 @@ correspondence: PAIRS of real isotherms; the model (executed in Coq) predicts wh
 oracle/search : equal content by another route (lists / arrays / frame, int / float literals, row labels, another process with
                 another PYTHONHASHSEED, parse of a JSON export, after read-only calls) => equal id; a minimal change of content
                 (each metadata value or type, label, material, property, adsorbate, temperature, cell above the threshold, branch
-                mark, model parameter) => different id; a change below the rounding threshold => equal id
+                mark, model parameter) => different id; a change below the rounding threshold => equal id; live-object histories:
+                identifier read, content edited through a held reference (data_raw cell / branch mark / column, properties[k],
+                material.properties[k], model.params[k], model.rmse), identifier read again => changed and equal to a fresh object's
 """
 import copy
 import json
@@ -30,7 +32,9 @@ MANIFEST = dict(
          "labels, branch column dtype give other tokens). PARTIAL: 'different prehash => different identifier' is the collision-freeness of "
          "md5 / hash_pandas_object / json.dumps, assumed. Every run compares, inside Coq, the model's prediction 'same md5 input' with the "
          "implementation's == on generated pairs (same content by other routes, minimal content changes, sub-threshold changes), and checks "
-         "identifiers across a process boundary with another PYTHONHASHSEED and across read-only calls.",
+         "identifiers across a process boundary with another PYTHONHASHSEED, across read-only calls, and along live-object histories (identifier "
+         "read, one content item changed through an object the isotherm holds - table cell, branch mark, metadata / material property dict, model "
+         "parameter - identifier read again: it must change and equal the identifier of a fresh isotherm with the edited content).",
     note="Trusted: Coq kernel; oracles md5, hash_pandas_object (one hash per row from label and dtype-tagged cells), str(int), json.dumps(sort_keys); "
          "numpy round(8) modelled as exact half-even rounding (generator stays away from ties); tools/py2v_tables.py; the abstraction function "
          "of the harness.",
@@ -279,6 +283,186 @@ def classify(kind, what, oa, ob):
     return 'C05:unclassified:%s:%s' % (kind, what)
 
 
+# ------------------------------------------------------------------ content edited through objects the isotherm HOLDS
+def _same_kind_step(x):
+    """another value of the same Python type, well above the 8-decimal threshold"""
+    x = cc.py(x)
+    if isinstance(x, bool):
+        return not x
+    if isinstance(x, int):
+        return x + 1
+    if isinstance(x, float):
+        return x + 1.0 if x == x and abs(x) < 1e15 else 0.5
+    if isinstance(x, str):
+        return x + '_'
+    return 'changed'
+
+
+def held_edit(iso, spec, o, rnd):
+    """Change ONE content item of the live isotherm through a reference the isotherm holds (its table, its metadata dict, its
+    material's property dict, its model's parameter dict) - never by assigning an attribute of the isotherm itself.
+    -> (what, spec of a fresh isotherm with the edited content) or None when the drawn edit does not apply"""
+    s = copy.deepcopy(spec)
+    choices = ['meta_add', 'mprop_add']
+    if s['meta']:
+        choices += ['meta_value', 'meta_value', 'meta_del']
+    if s['mprops']:
+        choices += ['mprop_value']
+    if s['cls'] == 'point':
+        choices += ['cell', 'cell', 'cell', 'branch', 'branch', 'column_scaled', 'extra_cell'] * 2
+    if s['cls'] == 'model':
+        choices += ['param', 'param', 'param', 'rmse', 'range'] * 2
+    what = rnd.choice(choices)
+    if what == 'meta_add':
+        k = 'held_key_%d' % rnd.randint(0, 9)
+        v = rnd.choice([3, 2.5, 'text', True, None, [1, 2]])
+        if k in iso.properties:
+            return None
+        iso.properties[k] = copy.deepcopy(v)
+        s['meta'][k] = v
+    elif what == 'meta_value':
+        k = rnd.choice(sorted(s['meta']))
+        v = _same_kind_step(s['meta'][k])
+        if isinstance(s['meta'][k], float) and v == s['meta'][k]:
+            return None
+        iso.properties[k] = copy.deepcopy(v)
+        s['meta'][k] = v
+    elif what == 'meta_del':
+        k = rnd.choice(sorted(s['meta']))
+        del iso.properties[k]
+        del s['meta'][k]
+    elif what == 'mprop_add':
+        if 'held_prop' in iso.material.properties:
+            return None
+        iso.material.properties['held_prop'] = 'v1'
+        s['mprops']['held_prop'] = 'v1'
+    elif what == 'mprop_value':
+        k = rnd.choice(sorted(s['mprops']))
+        v = _same_kind_step(s['mprops'][k])
+        iso.material.properties[k] = copy.deepcopy(v)
+        s['mprops'][k] = v
+    elif what in ('cell', 'branch', 'column_scaled', 'extra_cell'):
+        d = s['data']
+        df = iso.data_raw                                  # the held table
+        n = rnd.randrange(len(df))
+        # the fresh isotherm gets the marks of the live one explicitly (a changed pressure must not be re-guessed)
+        marks = list(o['branch_raw'])
+        if not all(isinstance(b, (bool, int)) for b in marks):
+            return None
+        d['branch'] = marks
+        d['p'], d['l'] = list(d['p']), list(d['l'])
+        if what == 'cell':
+            col, key = rnd.choice([('p', d['pk']), ('l', d['lk'])])
+            new = _same_kind_step(df[key].iloc[n])
+            df.loc[df.index[n], key] = new
+            d[col][n] = new
+        elif what == 'extra_cell':
+            names = [c for c, v in d['cols'].items() if v and isinstance(v[0], (int, float, str))]
+            if not names:
+                return None
+            key = rnd.choice(sorted(names))
+            old = df[key].iloc[n]
+            new = _same_kind_step(old)
+            if cc.py(old) != cc.py(old):                   # a missing cell gets a value
+                new = 1.25
+            df.loc[df.index[n], key] = new
+            d['cols'][key] = list(d['cols'][key])
+            d['cols'][key][n] = new
+        elif what == 'branch':
+            new = (not marks[n]) if isinstance(marks[n], bool) else 1 - int(marks[n])
+            df.loc[df.index[n], 'branch'] = new
+            d['branch'][n] = new
+        else:
+            key = d['pk']
+            df[key] *= 2                                   # in-place rescaling of the held column
+            d['p'] = [x * 2 for x in d['p']]
+        d['via'] = 'frame'
+    elif what == 'param':
+        k = rnd.choice(sorted(s['model']['params']))
+        v = s['model']['params'][k] * rnd.choice([1.5, 1 + 1e-6])
+        iso.model.params[k] = v
+        s['model']['params'][k] = v
+    elif what == 'rmse':
+        v = s['model']['rmse'] + 0.125
+        iso.model.rmse = v                                 # attribute of the held model object, not of the isotherm
+        s['model']['rmse'] = v
+    elif what == 'range':
+        v = (s['model']['prange'][0], s['model']['prange'][1] + 1)
+        iso.model.pressure_range = v
+        s['model']['prange'] = v
+    return what, s
+
+
+def held_reference_edits(rep, tier, seed):
+    """read the identifier, change content through a held reference, read again: the identifier must change, and a fresh
+    isotherm with the edited content must have the identifier of the edited object (the identifier depends on the content
+    only, not on the history of the object)."""
+    rnd = random.Random(seed + 23)
+    n = 1500 if tier == 'thorough' else 150
+    hist = {}
+    seen = {}
+    done = 0
+    nontrivial = set()
+
+    def fail(tag, what, replay):
+        seen[tag] = seen.get(tag, 0) + 1
+        if seen[tag] <= 3:
+            rep.failure(tag, what, replay)
+
+    for k in range(n):
+        spec = cc.gen_spec(rnd, 'json')
+        if spec['cls'] == 'point':
+            spec['data']['via'] = 'frame'
+        try:
+            iso = cc.build(spec)
+            ctrl = cc.build(spec)
+        except Exception:  # noqa  generator produced something a constructor refuses
+            continue
+        o = cc.observe(iso)
+        reads = rnd.choice(['iso_id', 'eq', 'in', 'repr+iso_id'])
+        id0 = iso.iso_id
+        if reads == 'eq':
+            iso == ctrl  # noqa
+        elif reads == 'in':
+            iso in [ctrl]  # noqa
+        elif reads == 'repr+iso_id':
+            repr(iso)
+        if spec['cls'] != 'base' and rnd.random() < 0.5:
+            read_only_calls(iso, rnd)
+        edit_seed = 'c05-held/%d/%d' % (seed, k)
+        try:
+            e = held_edit(iso, spec, o, random.Random(edit_seed))
+            if e is None:
+                continue
+            what, s2 = e
+            id1 = iso.iso_id
+            fresh = cc.build(s2)
+        except Exception:  # noqa  (pandas refuses the assignment: not an identifier case)
+            hist['held/edit-refused'] = hist.get('held/edit-refused', 0) + 1
+            continue
+        done += 1
+        hist['held/' + what] = hist.get('held/' + what, 0) + 1
+        rp = {'specA': _js(spec), 'specB': _js(s2), 'kind': 'held-reference', 'what': what, 'reads': reads, 'edit_seed': edit_seed}
+        if id1 == id0:
+            fail('C05:unclassified:id-stale-after-edit-through-held-reference:%s' % what,
+                 'identifier read (%s), %s changed through a reference the isotherm holds, identifier read again: unchanged %s' % (reads, what, id0), rp)
+            continue
+        if fresh.iso_id != id1 or not (fresh == iso):
+            of = cc.observe(fresh)
+            oe = cc.observe(iso)
+            same_route = of.get('dtypes') == oe.get('dtypes') and of.get('columns') == oe.get('columns') and of.get('index') == oe.get('index')
+            if same_route:
+                fail('C05:unclassified:edited-object-id-differs-from-fresh-object:%s' % what,
+                     'after %s through a held reference the identifier %s is not the identifier %s of a fresh isotherm with the same content' % (what, id1, fresh.iso_id), rp)
+            else:
+                hist['held/fresh-object-on-another-route(not judged)'] = hist.get('held/fresh-object-on-another-route(not judged)', 0) + 1
+            continue
+        nontrivial.add(('held', what, spec['cls'], reads))
+    rep.cov['evaluations'] += done
+    rep.cov['held_reference_edits'] = {'cases': done, 'failing_cases_per_tag': dict(sorted(seen.items()))}
+    return hist, nontrivial
+
+
 def run(rep, tier, seed):
     vlib.standard_proof_phase(rep, 'C05', extra_targets=['Ident/PrehashShow.vo'])
     explore(rep, tier, seed)
@@ -347,6 +531,9 @@ def explore(rep, tier, seed):
                 rep.failure('C05:unclassified:id-differs-across-processes', 'identifier differs in another process (PYTHONHASHSEED=4242): %s vs %s' % (c['ida'], i2),
                             {'specA': _js(c['sa']), 'kind': 'process'})
         hist['process-boundary'] = len(sample)
+    hh, hn = held_reference_edits(rep, tier, seed)
+    hist.update(hh)
+    nontrivial |= hn
     rep.cov['evaluations'] += len(cases) + len(sample)
     rep.cov['distinct_nontrivial'] = len(nontrivial)
     rep.cov['rule'] = ('pairs from the structured generator of C06: (i) same content by another route {row labels shifted / strings, int vs float '
@@ -354,7 +541,10 @@ def explore(rep, tier, seed):
                        'value / type / added / deleted key, material property, one cell by 3e-8, one branch mark, one row, model parameter / rmse '
                        '/ range / branch}; (iii) one cell by 2e-9 (below the threshold). non-trivial = distinct (kind, change, class, rows, metadata '
                        'keys) on which the implementation behaved as the property demands; plus identifiers recomputed in another process with '
-                       'another PYTHONHASHSEED and after 12 random read-only calls')
+                       'another PYTHONHASHSEED and after 12 random read-only calls; (iv) live-object histories: identifier read (iso_id / == / in / repr), '
+                       'one content item changed through a reference the isotherm HOLDS {cell, extra-column cell, branch mark, rescaled column of data_raw; '
+                       'properties[k] set / added / deleted; material.properties; model.params[k], model.rmse, model.pressure_range}, identifier read '
+                       'again: must change and must equal the identifier of a fresh isotherm built with the edited content')
     rep.cov['input_distribution'] = dict(sorted(hist.items()))
     rep.cov['correspondence'] = {'pairs': len(cases), 'disagreements': n_dis, 'what': "model's 'same md5 input' (computed in Coq) vs implementation =="}
     rep.cov['samples'] += [{'what': c['what'], 'kind': c['kind'], 'eq': c['eq'], 'expected_same': c['expect_same']} for c in cases[:6]]
@@ -387,6 +577,16 @@ def replay(d):
     import logging
     logging.disable(logging.CRITICAL)
     r = d['replay']
+    if r.get('kind') == 'held-reference':
+        sa = _unjs(r['specA'])
+        a = cc.build(sa)
+        id0 = a.iso_id
+        e = held_edit(a, sa, cc.observe(a), random.Random(r['edit_seed']))
+        id1 = a.iso_id
+        fresh = cc.build(e[1])
+        print('identifier read:', id0, '| edit through a held reference:', e[0], '| identifier read again:', id1, '(unchanged!)' if id0 == id1 else '')
+        print('fresh isotherm with the edited content:', fresh.iso_id, ' fresh == edited:', fresh == a)
+        return 1
     a = cc.build(_unjs(r['specA']))
     print('A:', a.iso_id, cc.observe(a).get('dtypes'), cc.observe(a).get('index', [])[:3])
     if 'specB' in r:
